@@ -6,8 +6,9 @@ interpreted by `Spec/SM.lean: denote` (`c02.denote`).
 (C) structure of the implementation's text = structure the model writes (rows of every measure, header values,
     `#BPMS` pairs);
 (S) the text is well-formed MSD/.sm, denotes the same charts with the same objects in the same columns, times
-    within 1/96 beat at the local tempo — within float tolerance when every tempo point is on a measure line,
-    the object is on the snap grid and its measure's LCM fits 384 rows —, header fields read back, and
+    within one row (1/96 beat at the longest beat length between the object and its row) of the snapped position —
+    within float tolerance when every tempo point is on a measure line, the object is on the snap grid, its
+    measure's LCM fits 384 rows and no time of the chart lies on a snapping discontinuity —, header fields read back, and
     reading the text back returns those objects again.
 """
 import logging
@@ -32,6 +33,9 @@ ASSUMPTIONS = [
     "header strings contain no ';' ':' '#' '//' and no surrounding whitespace (MSD has no escape in this writer)",
     "columns are within the chart type's key count; no two objects in one (row, column) on the main stream",
     "float rendering is Python repr (round-trips); `round(beat, 6)` and `int(num * (den_max/den))` are modelled exactly; the shift caused by the 6-decimal #BPMS beats (<= 5e-7 beat per tempo change times the change of beat length) is added to the 1/96-beat limit",
+    "the 1/96-beat class: one row of a capped measure, measured with the longest beat length between the object and its written row (an object on a tempo change is written into the slower segment before it), plus the snapping distance of an off-grid time, plus the shift caused by tempo points that are not on the grid (written beat minus exact beat, times the change of beat length; the active point's own snapping with the full beat length)",
+    "every write of a history is classified on the chart as it is at that write (content, model call, domain, tolerance class); a time within the float band (2^-40 relative, as in C10) of the midpoint of two neighbouring grid points or of a tempo point may be snapped to either side: the chart is then judged in the 1/96-beat class and a different row count is a float boundary",
+    "tempo points are written at distinct beats (two points closer than the grid / six decimals resolve have no .sm form)",
 ]
 TRUSTED_EXTRA = ["the exactness / 1/96-beat comparison of (S) is evaluated in Python with Fractions on the denotation returned by the driver"]
 
@@ -221,6 +225,29 @@ def corpus():
                     charts=[dict(type="dance-single", desc="", diff="Easy", meter=1, radar=[R(0.0)] * 5,
                                  notes=[hit(0, 500.0 / 32), hit(1, 500.0 / 9), hit(2, 500.0 * 3 / 7)])], rate=None))
     out.append(dict(claim="write", origin="read", text=c02.corpus()[2]["text"], rate=None))
+    # a hold tail on the exact midpoint of two grid points (191/192 of a beat: 95/96 or 1) in the measure of a roll tail
+    # at 35/18: the tie decides between 72 rows and the 384-row cap for the whole measure (seed 19 of the quick tier);
+    # then the same object written again after two in-place tempo edits
+    out.append(dict(claim="write", origin="built", mode="mid", style="capped", hdr=dict(hdr0, selectable=False), bpms=[[R(0), R(100)]],
+                    charts=[dict(type="dance-solo", desc="d", diff="B", meter=0, radar=[R(0.0)],
+                                 notes=[["hold", 0, R(3750.0), R(1646.875)],
+                                        ["roll", 1, [8649491471837867, 2199023255552], [4471347286289067, 2199023255552]]])],
+                    rate=None, history=[["scale_bpm", [1, 2]], ["scale_bpm", [1, 2]]]))
+    # an object on a tempo change in a capped measure: its row lies in the slower segment before the change, where
+    # one row is more milliseconds than after it (seed 2 of the thorough tier, after an appended tempo row)
+    out.append(dict(claim="write", origin="built", mode="line", style="capped", hdr=hdr0, bpms=[[R(0), R(300)], [R(800), R(480)]],
+                    charts=[dict(type="dance-single", desc="", diff="Easy", meter=1, radar=[R(0.0)] * 5,
+                                 notes=[hit(0, 6.25), ["fake", 3, R(800.0), R(0)], hit(1, 925.0)])],
+                    rate=None, history=[["append_bpm", [[400, 1], [240, 1]]]]))
+    # tempo points off the snap grid (and out of time order), then a faster one appended: the snapped #BPMS beats move
+    # the time of everything after them (seed 25 of the quick tier)
+    out.append(dict(claim="write", origin="built", mode="line", style="offgrid", hdr=dict(hdr0, offset=R(-500)),
+                    bpms=[[R(-500), R(37)], [R(1), R(37)]], bpm_perm=[1, 0],
+                    charts=[dict(type="dance-threepanel", desc="d", diff="H", meter=0, radar=[R(0.0)], notes=[hit(0, 3450)])],
+                    rate=None, history=[["append_bpm", [[300, 1], [240, 1]]]]))
+    # two tempo points one millisecond apart snap to the same beat: outside the domain, must not be judged
+    out.append(dict(claim="write", origin="built", mode="line", style="grid", hdr=hdr0, bpms=[[R(0), R(37)], [R(1), R(30)]],
+                    charts=[dict(type="kb7-single", desc="a", diff="B", meter=0, radar=[R(0.0)], notes=[])], rate=None))
     return out
 
 
@@ -444,6 +471,17 @@ def local_bpm(bpms, t):
     return cur
 
 
+def span_beat_len(bpms, t1, t2):
+    """longest beat length (ms) of the tempo segments between the two times: a position error of x beats is a time
+    error of at most x times this - the written row of an object at a tempo change lies in the segment before it"""
+    lo, hi = min(t1, t2), max(t1, t2)
+    bl = Fr(60000) / local_bpm(bpms, lo)
+    for o, b in bpms:
+        if lo < o <= hi + Fr(1, 2 ** 20):
+            bl = max(bl, Fr(60000) / b)
+    return bl
+
+
 def on_grid(bpms, t):
     """is t (within 2^-30 beat) on the snap grid of denominators <= 96 relative to its active tempo point; returns
     (flag, absolute-beat-denominator-relevant fraction)"""
@@ -457,15 +495,81 @@ def on_grid(bpms, t):
     return abs(g - fr) < Fr(1, 2 ** 30)
 
 
+_GRID = None
+
+
+def snap_info(bpms, t, prev=False):
+    """where the writer's snapping puts the time t: (distance in beats to the nearest point of the snap grid of
+    denominators <= 96, relative to the active tempo point; is t inside the float band of a discontinuity).  The
+    discontinuities are the exact midpoint of two neighbouring grid points (the code's `left < right` on doubles may
+    fall on either side, as in C10's tie_band: 2^-40 relative to the magnitudes involved) and the time of a tempo
+    point (`bco.offset > offset` on doubles).  `prev`: t is itself a tempo point and is snapped relative to the point
+    before it."""
+    global _GRID
+    if _GRID is None:
+        _GRID = sorted({Fr(n, d) for d in range(1, 97) for n in range(0, d + 1)})
+    import bisect
+    act = None
+    edge = False
+    for p in bpms:
+        if (p[0] < t) if prev else (p[0] <= t):
+            act = p
+        if not prev and abs(p[0] - t) <= Fr(1, 2 ** 40) * max(1, abs(t)) and p[0] != t:
+            edge = True
+    if act is None:
+        return Fr(0), False
+    bl = Fr(60000) / act[1]
+    d = (t - act[0]) / bl
+    fr = d - math.floor(d)
+    i = bisect.bisect_left(_GRID, fr)
+    if _GRID[i] == fr:
+        return Fr(0), edge
+    lo, hi = _GRID[i - 1], _GRID[i]
+    band = Fr(1, 2 ** 40) * (1 + 2 * max(abs(t), abs(act[0])) / bl)
+    tie = abs((fr - lo) - (hi - fr)) < 2 * band
+    return min(fr - lo, hi - fr) + (band if tie else 0), tie or edge
+
+
+def chart_ties(bpms, notes):
+    """is any snapped time of the chart (object heads, hold/roll tails, the tempo points after the first) inside the
+    float band of a snapping discontinuity?  Then the row count of its measure may be either of two values and the
+    whole chart is judged in the 1/96-beat class, a different choice of rows being a float boundary, not a
+    disagreement."""
+    for n in notes:
+        if snap_info(bpms, n[2])[1]:
+            return True
+        if n[0] in ("hold", "roll") and snap_info(bpms, n[2] + n[3])[1]:
+            return True
+    return any(snap_info(bpms, p[0], prev=True)[1] for p in bpms[1:])
+
+
+def true_beats(bpms):
+    """exact cumulative beat of every tempo point of the (time-sorted) list, the first one at beat 0"""
+    out = [Fr(0)]
+    for (o0, b0), (o1, _) in zip(bpms[:-1], bpms[1:]):
+        out.append(out[-1] + (o1 - o0) * b0 / 60000)
+    return out
+
+
 def tempo_round_slack(bpms, raw_beats, t):
-    """upper bound of the shift that `round(beat, 6)` of the #BPMS beats can cause at time t: every change before t
-    moves by at most |round6(beat) - beat| beats, which shifts everything after it by that many beats times the
-    difference of the two beat lengths"""
-    e = Fr(0)
+    """upper bound of the shift of an object at time t that comes from the written #BPMS beats not being the exact
+    beats of the tempo points.  Tempo point i is written at beat w_i = round6(r_i), r_i its snapped beat
+    (the model's `bpm_beats`), its exact beat being c_i; objects are placed relative to r_k of the active point k.  Then
+        written time - t  =  sum_{i<=k} (w_i - c_i) * (bl_{i-1} - bl_i)  +  (r_k - c_k) * bl_k
+    (bl = beat length): every moved change shifts what follows by the difference of the two beat lengths, and the
+    snapping of the active point itself counts with the full beat length.  For tempo points on the grid r = c and only
+    the six-decimal rounding remains (round6_err: at most 5e-7 beat per change)."""
+    if len(raw_beats) != len(bpms):
+        return Fr(0)
+    c = true_beats(bpms)
+    k = 0
     for i in range(1, len(bpms)):
-        if bpms[i][0] <= t + Fr(1, 2 ** 20) and i < len(raw_beats):
-            d = abs(round6(raw_beats[i]) - raw_beats[i])
-            e += d * abs(Fr(60000) / bpms[i - 1][1] - Fr(60000) / bpms[i][1])
+        if bpms[i][0] <= t + Fr(1, 2 ** 20):
+            k = i
+    e = Fr(0)
+    for i in range(1, k + 1):
+        e += abs(round6(raw_beats[i]) - c[i]) * abs(Fr(60000) / bpms[i - 1][1] - Fr(60000) / bpms[i][1])
+    e += abs(raw_beats[k] - c[k]) * (Fr(60000) / bpms[k][1])
     return e
 
 
@@ -548,6 +652,12 @@ def _judge(case, ms, ms_pre, drv, tags):
         close(F(dom_src["hdr"]["offset"]), src_first) and all(c["chart_type"] in KEYED for c in content["charts"]) and \
         all(F(n[2]) >= first_off - Fr(1, 2 ** 20) and 0 <= n[1] < KEYED[c["chart_type"]]
             for c in content["charts"] for n in c["notes"])
+    # two tempo points closer than the snap grid / the six decimals resolve are written at one beat: such a tempo list
+    # has no .sm form (domain: tempo points at distinct written beats)
+    wb = [round6(F(x)) for x in ((model.get("ok") or {}).get("bpm_beats") or [])]
+    if len(set(wb)) < len(wb):
+        in_q = False
+        tags.append("tempo-coincide")
     if impl[0] == "err":
         agree = model.get("err") == impl[1]
         if in_q:
@@ -556,6 +666,10 @@ def _judge(case, ms, ms_pre, drv, tags):
         detail = dict(impl=list(impl), model=model)
         return dict(claim="write", ok=ok, agree=agree, dom=False, kf=None, tags=tags + ["impl-raises"], nontrivial=False, detail=detail)
     den = drv.call("c02.denote", text=text)["ok"]
+    # snapping discontinuities of THIS snapshot (every write of a history is classified on the chart as it is now)
+    bp_now = sorted((F(o), F(b)) for o, b in content["charts"][0]["bpms"]) if content["charts"] else []
+    ties = [bool(bp_now) and all(b > 0 for _, b in bp_now) and chart_ties(bp_now, c02.jnotes(c["notes"]))
+            for c in content["charts"]]
     # ---------------- (C) structure of the text vs the model
     if "ok" not in model or den is None:
         agree = False
@@ -591,7 +705,7 @@ def _judge(case, ms, ms_pre, drv, tags):
         if len(den["charts"]) != len(w["charts"]):
             agree = False
         else:
-            for cd, cw, dg in zip(den["charts"], w["charts"], w["diag"]):
+            for cd, cw, dg, tie in zip(den["charts"], w["charts"], w["diag"], ties):
                 if (cd["chart_type"], cd["description"], cd["difficulty"], cd["meter"]) != \
                         (cw["chart_type"], cw["description"], cw["difficulty"], cw["difficulty_val"]):
                     agree = False
@@ -599,7 +713,7 @@ def _judge(case, ms, ms_pre, drv, tags):
                         any(not close(F(a), F(b)) for a, b in zip(cd["radar"], cw["groove"])):
                     agree = False
                 if [m for m in cd["measures"] if m] != [m for m in cw["measures"] if m]:
-                    if dg and dg["near_int"]:
+                    if (dg and dg["near_int"]) or tie:
                         boundary = True
                     else:
                         agree = False
@@ -647,9 +761,9 @@ def _judge(case, ms, ms_pre, drv, tags):
             raw_beats = [F(x) for x in ((model.get("ok") or {}).get("bpm_beats") or [])]
             order = sorted(range(len(content["charts"][0]["bpms"])), key=lambda i: F(content["charts"][0]["bpms"][i][0]))
             raw_sorted = [raw_beats[i] for i in order] if len(raw_beats) == len(order) else []
-            lossy = any(round6(b) != b for b in raw_sorted)
-            for n, (cd, cc, dg) in enumerate(zip(den["charts"], content["charts"],
-                                                 (model.get("ok") or {}).get("diag") or [None] * len(den["charts"]))):
+            lossy = len(raw_sorted) == len(bp) and any(round6(r) != c for r, c in zip(raw_sorted, true_beats(bp)))
+            for n, (cd, cc, dg, tie) in enumerate(zip(den["charts"], content["charts"],
+                                                      (model.get("ok") or {}).get("diag") or [None] * len(den["charts"]), ties)):
                 if (cd["chart_type"], cd["description"], cd["difficulty"], cd["meter"]) != \
                         (cc["chart_type"], cc["description"], cc["difficulty"], cc["difficulty_val"]):
                     if clean(cc["description"]) and clean(cc["difficulty"]):
@@ -671,9 +785,10 @@ def _judge(case, ms, ms_pre, drv, tags):
                     why.append("chart %d: objects / kinds / columns differ (%d written, %d in memory)" % (n, len(got), len(exp)))
                     continue
                 for a, b in zip(exp, got):
-                    bl = Fr(60000) / local_bpm(bp, a[2])
-                    lim = bl / 96 + Fr(1, 2 ** 20)
-                    exact = lines and on_grid(bp, a[2]) and bool(dg and dg["exact_rows"])
+                    bl = span_beat_len(bp, a[2], b[2])
+                    # one row of the capped measure (row_error_lt_one) on top of the snapping distance of an off-grid time
+                    lim = bl / 96 + bl * snap_info(bp, a[2])[0] + Fr(1, 2 ** 20)
+                    exact = lines and on_grid(bp, a[2]) and bool(dg and dg["exact_rows"]) and not tie
                     tol = Fr(1, 2 ** 20) * max(1, abs(a[2])) / 1000 + Fr(1, 2 ** 20)
                     d = abs(a[2] - b[2])
                     maxdev = max(maxdev, float(d)) if exact else maxdev
@@ -687,10 +802,10 @@ def _judge(case, ms, ms_pre, drv, tags):
                         break
                     if a[0] in ("hold", "roll"):
                         ea, eb = a[2] + a[3], b[2] + b[3]
-                        ble = Fr(60000) / local_bpm(bp, ea)
-                        exact_e = lines and on_grid(bp, ea) and bool(dg and dg["exact_rows"])
+                        ble = span_beat_len(bp, ea, eb)
+                        exact_e = lines and on_grid(bp, ea) and bool(dg and dg["exact_rows"]) and not tie
                         slack_e = tempo_round_slack(bp, raw_sorted, max(ea, eb)) if lossy else 0
-                        if abs(ea - eb) > (tol if exact_e else ble / 96 + slack_e + Fr(1, 2 ** 20)):
+                        if abs(ea - eb) > (tol if exact_e else ble / 96 + ble * snap_info(bp, ea)[0] + slack_e + Fr(1, 2 ** 20)):
                             ok = False
                             why.append("chart %d: %s col %d tail at %.6f ms written at %.6f ms" % (n, a[0], a[1], float(ea), float(eb)))
                             break
@@ -713,11 +828,16 @@ def _judge(case, ms, ms_pre, drv, tags):
             nn = sum(len(c["notes"]) for c in content["charts"])
             nontrivial = nn >= 3 and (any(n[0] in ("hold", "roll") for c in content["charts"] for n in c["notes"]) or len(bp) >= 2
                                       or case.get("style") == "capped")
-            dom = lines and not skipped and all(bool(d and d["exact_rows"] and not d["collision"]) for d in ((model.get("ok") or {}).get("diag") or [None]))
+            all_on = all(on_grid(bp, F(n[2])) and (n[0] not in ("hold", "roll") or on_grid(bp, F(n[2]) + F(n[3])))
+                         for c in content["charts"] for n in c["notes"])
+            dom = lines and all_on and not any(ties) and not skipped and \
+                all(bool(d and d["exact_rows"] and not d["collision"]) for d in ((model.get("ok") or {}).get("diag") or [None]))
     kf = None
     if not ok:
         detail["why"] = why
         detail["text"] = text[:3000]
         detail["content"] = content
+    if any(ties):
+        tags.append("snap-tie")
     return dict(claim="write", ok=ok, agree=agree, dom=bool(dom), kf=kf, tags=tags, nontrivial=bool(nontrivial), maxdev=maxdev,
                 boundary=boundary, detail=detail)
